@@ -560,6 +560,31 @@ func scenarios() []scenario {
 			wg.Wait()
 			rt.Quiesce()
 		}, check: basic},
+		{name: "S9-deletes-vs-flush-vs-get", body: func() {
+			s := newServer()
+			stub := wire.New(s)
+			primary(s, "p", one)
+			r := s.VerifRIB()
+			r.AddEntry(D, ribx.Op(1, D, spb.AFTOperation_ADD, nh1))
+			r.AddEntry(D, ribx.Op(2, D, spb.AFTOperation_ADD, nh2))
+			r.AddEntry(D, ribx.Op(3, D, spb.AFTOperation_ADD, g1))
+			r.AddEntry(D, ribx.Op(4, D, spb.AFTOperation_ADD, ribx.NHGEntry(2, 0, [2]uint64{2, 1})))
+			r.AddEntry(D, ribx.Op(5, D, spb.AFTOperation_ADD, v4))
+			var wg vsync.WaitGroup
+			wg.Add(3)
+			rt.Go("deletes", func() {
+				defer wg.Done()
+				doModify(s, "p", stamped(11, D, spb.AFTOperation_DELETE, ribx.NHGEntry(2, 0), one), stamped(12, D, spb.AFTOperation_DELETE, nh2, one), stamped(13, D, spb.AFTOperation_DELETE, g1, one))
+			})
+			rt.Go("flush", func() {
+				defer wg.Done()
+				_, err := s.Flush(context.Background(), &spb.FlushRequest{NetworkInstance: &spb.FlushRequest_Name{Name: D}, Election: &spb.FlushRequest_Id{Id: one.Proto()}})
+				rt.Emit("flush", fmt.Sprint(err))
+			})
+			rt.Go("get", func() { defer wg.Done(); getAll(s, stub) })
+			wg.Wait()
+			rt.Quiesce()
+		}, check: basic},
 		{name: "S8-contents-vs-cross-instance-flush-vs-add-network-instance", body: func() {
 			s := newServer()
 			r := s.VerifRIB()
